@@ -124,3 +124,33 @@ def run(ctx):
         if ctx.anchor(R3, root, root in prog.bodies):
             uses = prog.group_calls(root, suffix(fn))
             ctx.ob(R3, f'{name}·uses-comparator', bool(uses), f'{root} must order rows through {fn}')
+
+    R4 = 'C11-R4'
+    ctx.rule(R4, 'merge join groups rows by key ACROSS input chunks: group_by_keys emits its last group after the input stream has '
+                 'ended (a trailing flush); a grouping that is complete at the end of every chunk splits a key that straddles two chunks')
+    gk = prog.body('executor::merge_join::group_by_keys::{closure#0}')
+    if ctx.anchor(R4, 'executor::merge_join::group_by_keys', gk is not None):
+        ctx.functions_analysed.add(gk.name)
+        none_targets = []
+        for i, bl in enumerate(gk.blocks):
+            t = bl['term']
+            if t['k'] == 'switch' and t.get('adt') == 'std::option::Option' and t.get('on') and \
+                    any(p.startswith('as:Ready') for p in t['on']['p']):
+                for v, tgt in t['targets']:
+                    if t.get('variants', {}).get(v) == 'None':
+                        none_targets.append(tgt)
+        if ctx.anchor(R4, 'group_by_keys: end of the child stream', none_targets):
+            after = gk.reachable_from(none_targets)
+            # a yield of an item (not the Pending yield of an await): its value is not Poll::Pending
+            item_yields = []
+            for i in after:
+                t = gk.blocks[i]['term']
+                if t['k'] == 'yield':
+                    pend = any(st.get('rv', {}).get('rv') == 'agg' and st['rv'].get('variant') == 'Pending' for st in gk.blocks[i]['stmts'])
+                    if not pend:
+                        item_yields.append(i)
+            ctx.ob(R4, 'group_by_keys·trailing-flush', bool(item_yields),
+                   f'item yields reachable after the child stream ended: {item_yields}', [site(gk, x) for x in item_yields] or [gk.loc],
+                   what='group_by_keys has no flush after the end of its input: key groups are closed at chunk boundaries, so a key that '
+                        'straddles two chunks is joined as two groups (merge join loses matches)')
+
